@@ -25,7 +25,8 @@ from rtmon import common
 LEVEL = "fault_enumeration"
 WORKERS = 14
 CASE_TIMEOUT = 900
-REQUIRED_OBS = ["crash_states_audited", "processes_killed", "torn_states_audited", "reference_sessions"]
+REQUIRED_OBS = ["crash_states_audited", "processes_killed", "torn_states_audited", "reference_sessions",
+                "live_reader_passes"]
 RULE = ("format {fb,npz,tfrec} x history shape {create+first session, continued root session, fresh sub-directory, "
         "reused sub-directory, multi-writer (single process; real processes in thorough)} x every (syscall, K) of the "
         "crashing session that touches the dataset x torn prefixes {1, half, n-1} (all prefixes of metadata writes in "
@@ -43,7 +44,7 @@ _SERVER: dict = {}
 def gen_cases(tier: str, seed: int) -> list[dict]:
     rng = random.Random(seed * 1117 + 6)
     cases = []
-    shapes = list(SHAPES) + (["multi-real"] if tier == "thorough" else [])
+    shapes = list(SHAPES) + (["multi-real"] if tier == "thorough" else []) + ["live-root", "live-subdir"]
     reps = 1 if tier == "quick" else 4
     for fmt in ("fb", "npz", "tfrec"):
         for shape in shapes:
@@ -52,6 +53,67 @@ def gen_cases(tier: str, seed: int) -> list[dict]:
                               "shape": shape, "eps": rng.choice([2, 3]), "seed": rng.randrange(1 << 30),
                               "all_torn": tier == "thorough", "hashes": rng.choice([["sha256"], ["md5", "xxh64"]])})
     return cases
+
+
+def run_live(case: dict) -> dict:
+    """A live writer (slow, untraced) and a reader that keeps opening + iterating the dataset meanwhile:
+    every pass must succeed and return all committed examples plus only whole examples the writer wrote."""
+    import time
+    from sedpack.io import Dataset
+    from rtmon import ds as dsmod
+    fmt = case["fmt"]
+    work = common.new_workdir("c06live")
+    violations, obs = [], Counter()
+    try:
+        root = work / "ds"
+        create = {"fmt": fmt, "comp": case["comp"], "eps": case["eps"], "hashes": case["hashes"]}
+        first = {"create": create, "kind": "root", "session": 0,
+                 "writes": [[s, dsmod.make_id(s, 0, 0, k)] for k, s in enumerate(["train"] * 5 + ["test"] * 3)]}
+        answer = request({"root": str(root), "session": first, "inject": None, "log": str(work / "p.log"), "untraced": True})
+        if answer.get("exit") != 0:
+            return {"sig": "live-base-failed", "nontrivial": False, "violations": [], "obs": {},
+                    "inconclusive": [f"base session failed {answer}"]}
+        committed = {s: Counter(i for sp, i in map(tuple, first["writes"]) if sp == s) for s in dsmod.SPLITS}
+        n_writes = 40
+        kind = case["shape"]
+        writes = [[["train", "test"][k % 3 == 0], dsmod.make_id(["train", "test"][k % 3 == 0], 2, 0, k)] for k in range(n_writes)]
+        session = {"kind": "root" if kind == "live-root" else "subdir", "subdir": "live/x", "session": 2,
+                   "writes": writes, "delay": 0.04 if fmt == "tfrec" else 0.006}
+        attempted = {i for _, i in writes}
+        audit_state(root, committed, attempted)        # warm-up (TensorFlow's first use is slow)
+        proc = server()
+        proc.stdin.write(json.dumps({"root": str(root), "session": session, "inject": None, "log": str(work / "w.log"),
+                                     "untraced": True, "timeout": 120}) + "\n")
+        proc.stdin.flush()
+        import select
+        passes = 0
+        seen_sizes = set()
+        while True:
+            ready, _, _ = select.select([proc.stdout], [], [], 0)
+            if ready:
+                answer = json.loads(proc.stdout.readline())
+                break
+            problems = audit_state(root, committed, attempted)
+            passes += 1
+            for key, msg in problems:
+                if len(violations) < 10:
+                    violations.append({"key": f"concurrent-reader/{key}", "msg": f"{fmt} {kind} pass {passes}: {msg}"})
+            try:
+                seen_sizes.add(sum(1 for _ in Dataset(root).shard_info_iterator("train")))
+            except Exception:  # pylint: disable=broad-exception-caught
+                pass
+        if answer.get("exit") != 0:
+            violations.append({"key": "live-writer-failed", "msg": str(answer)})
+        for key, msg in audit_state(root, committed, attempted, complete=True):
+            violations.append({"key": f"after-live-session/{key}", "msg": msg})
+        obs["live_reader_passes"] = passes
+        obs["live_sessions"] = 1
+        obs["distinct_shard_counts_seen_by_reader"] = len(seen_sizes)
+        return {"sig": [fmt, kind, "live"], "nontrivial": passes >= 2 and len(seen_sizes) >= 2, "violations": violations,
+                "obs": {**obs, "crash_states_audited": 0, "processes_killed": 0, "torn_states_audited": 0, "reference_sessions": 0},
+                "sample": {"fmt": fmt, "live": kind, "reader_passes": passes, "shard_counts_seen": sorted(seen_sizes)}}
+    finally:
+        common.rm(work)
 
 
 def server():
@@ -100,6 +162,8 @@ def crash_points(log: Path, root: str) -> tuple[list[dict], dict]:
 
 
 def run_case(case: dict) -> dict:
+    if case["shape"].startswith("live-"):
+        return run_live(case)
     from rtmon import ds as dsmod
     fmt, shape = case["fmt"], case["shape"]
     rng = random.Random(case["seed"])
